@@ -536,6 +536,57 @@ static void control_action_case( const int g, const std::string& s )
    }
 }
 
+// P10 a state injected for a part of the grammar by an action's match() handing a TEMPORARY to tao::pegtl::match<>() (the idiom
+// of contrib/trace.hpp), observed by a control whose hooks take that state as a plain lvalue reference: every rule started
+// with the journal is closed on it - the scoped rule itself included, by unwind when an exception passes through
+struct journal
+{
+   std::vector< ev >* log;
+};
+static std::vector< ev > g_jl;
+template< typename Rule >
+struct journal_control : normal< Rule >
+{
+   using normal< Rule >::start;
+   using normal< Rule >::success;
+   using normal< Rule >::failure;
+   template< typename In > static void start( const In&, journal& j ) { j.log->push_back( { 'S', demangle< Rule >() } ); }
+   template< typename In > static void success( const In&, journal& j ) { j.log->push_back( { 'O', demangle< Rule >() } ); }
+   template< typename In > static void failure( const In&, journal& j ) { j.log->push_back( { 'F', demangle< Rule >() } ); }
+   template< typename In > static void unwind( const In&, journal& j ) { j.log->push_back( { 'U', demangle< Rule >() } ); }
+};
+struct inject : maybe_nothing
+{
+   template< typename Rule, apply_mode A, rewind_mode M, template< typename... > class Action, template< typename... > class Control, typename In, typename... St >
+   [[nodiscard]] static bool match( In& in, St&&... st )
+   {
+      return tao::pegtl::match< Rule, A, M, Action, Control >( in, st..., journal{ &g_jl } );
+   }
+};
+template< typename Rule > struct act_inject : nothing< Rule > {};
+template<> struct act_inject< g2::G > : inject {};
+template<> struct act_inject< g3::T > : inject {};
+template<> struct act_inject< g5::M > : inject {};
+template<> struct act_inject< g8::T > : inject {};
+
+template< typename G >
+static void injected_state_case( const int g, const std::string& s )
+{
+   ++n_cases;
+   g_jl.clear();
+   memory_input<> in( s.data(), s.data() + s.size(), "c08" );
+   try {
+      (void)parse< G, act_inject, journal_control >( in );
+   }
+   catch( const std::exception& ) {
+   }
+   n_events += g_jl.size();
+   const std::string why = dyck( g_jl );
+   if( !why.empty() ) {
+      viol( "injected-state", g, 7, s, "log of the control observing a state injected as a temporary: " + why + ": " + show( g_jl ) );
+   }
+}
+
 // P7 a user control WITH unwind() wrapped by state_control: its own log is a Dyck word as well (in particular no unwind for a
 //    rule it never saw start, e.g. the hidden internal::must< R > below must< A, B >)
 template< typename G >
@@ -560,6 +611,7 @@ template< typename G >
 static void all_cfgs( const int g, const std::string& s )
 {
    wrapped_unwind< G >( g, s );
+   injected_state_case< G >( g, s );
    control_action_case< G, true >( g, s );
    control_action_case< G, false >( g, s );
    one_case< G, act_none, normal >( g, 0, s );
